@@ -121,6 +121,46 @@ func timerSelfTest() int {
 		got += vrt.Recv(done)
 	})
 	expect(fmt.Sprintf("condition variable (%d schedules, %d violations)", st.Execs, st.Violations), st.Violations == 0 && st.Execs > 1)
+	// fan-out / fan-in over a rendezvous channel closed by a WaitGroup waiter: nothing is lost
+	sum := 0
+	st = vrt.Explore(vrt.ExploreCfg{Base: vrt.Config{Preempt: true}, Bound: 2, Check: func(x *vrt.Exec) (string, string) {
+		if x.Failure != nil {
+			return "failure", x.Failure.String()
+		}
+		if sum != 1+2+3+4+5 {
+			return "lost-value", fmt.Sprint(sum)
+		}
+		return "", ""
+	}}, func() {
+		sum = 0
+		out := vrt.MakeChan(0, func(n int) chan int { return make(chan int, n) })
+		permits := vrt.MakeChan(2, func(n int) chan struct{} { return make(chan struct{}, n) })
+		var wg vsync.WaitGroup
+		wg.Add(5)
+		for i := 1; i <= 5; i++ {
+			i := i
+			vrt.GoNamed("renderer", func() {
+				defer wg.Done()
+				vrt.BeforeSend(permits)
+				permits <- struct{}{}
+				defer func() { vrt.Recv(permits) }()
+				vrt.BeforeSend(out)
+				out <- i
+			})
+		}
+		vrt.GoNamed("closer", func() {
+			wg.Wait()
+			vrt.Close(out)
+		})
+		for {
+			v, ok := vrt.Recv2(out)
+			if !ok {
+				break
+			}
+			sum += v
+		}
+	})
+	expect(fmt.Sprintf("fan-in over a rendezvous channel (%d schedules, %d violations)", st.Execs, st.Violations), st.Violations == 0 && st.Execs > 1)
 	fmt.Printf("shimconf: virtual timers, ticker, AfterFunc, rendezvous channel, condition variable: %d mismatches\n", bad)
 	return bad
 }
